@@ -27,6 +27,12 @@ THEOREMS = [
     'IblVerif.C09.gain_vector_np2',
     'IblVerif.C09.gain_vector_nidq',
     'IblVerif.C09.imro_findall_rows',
+    'IblVerif.C09.gain_assembly',
+    'IblVerif.C09.gain_vector_entries',
+    'IblVerif.C09.gain_vector_np2_entries',
+    'IblVerif.C09.reset_tail_counterexample',
+    'IblVerif.C09.parse_never_singleton_list',
+    'IblVerif.C09.singleton_list_counterexample',
 ]
 RULE = ('(a) grammar-directed metadata texts: 1-14 key=value lines; keys from the SpikeGLX vocabulary or random words, with tildes, '
         'duplicates, empty keys, the reserved keys serial/neuropixelVersion; values: strings (paths, dates, dotted versions, "=", tabs, '
@@ -36,7 +42,9 @@ RULE = ('(a) grammar-directed metadata texts: 1-14 key=value lines; keys from th
         'model and code are compared but the round-trip oracle does not apply.  (b) acquisition metadata built per probe type '
         '{3A,3B1,3B2,NP2.1(21/1030),NP2.4(24/2013),NPultra,nidq,unknown} x AP/LF x NON-UNIFORM per-channel (AP,LF) gain pairs x IMRO sizes '
         '(2..384) x saved-channel counts (full, prefix, one more than the table, sync 0/1) x range / max-int / rates, with a field-mutation '
-        'stream (dropped key, wrong type, zero max-int).  (c) float()/repr() of the model against CPython on random digit strings / doubles.  '
+        'stream (dropped key, wrong type, zero max-int); (b\') every run, for EVERY probe generation x AP/LF, headers saved WITHOUT the sync word '
+        '(snsApLfSy = n,0,0 / 0,n,0, full and prefix-saved) and nidq headers without digital word (snsMnMaXaDw = mn,ma,xa,0), some of them '
+        'through the 43-call sequence.  (c) float()/repr() of the model against CPython on random digit strings / doubles.  '
         '(d) the 21 shipped fixtures through the real Reader constructor.  (e) for every 6th acquisition case, every 16th grammar case and '
         'every fixture a 43-call sequence on ONE parsed dict and ONE Reader object (every helper / property / write_meta_data three times, '
         'geometry_from_meta, a second Reader, re-reads in between): every result must equal the result on a freshly read dict, and the derive '
@@ -50,6 +58,14 @@ ASSUMPTIONS = [
     'the grammar of the round-trip theorem: numeric scalars are integer-valued or have a positional repr (1e-4 <= x: KNOWN FINDING '
     'scientific_repr_scalar for the rest, including overflow to inf), numeric lists are integer-valued and finite',
     'gain vectors are taken from the first n IMRO entries (prefix-saved recordings); non-prefix saved subsets share the caveat F15 (C08)',
+    'a one-element list value ([5.0]) is outside the property: read_meta_data never returns one (theorem parse_never_singleton_list), '
+    'write_meta_data writes it as a bare integer which is re-read as a scalar (theorem singleton_list_counterexample, observed on the real code '
+    'every run as the informational tag singleton-list, never a demand); keys with "~" and values containing "=" ARE inside the round-trip theorem (the key is '
+    'stored without tildes, the line is split at the FIRST "=")',
+    'translator tie (harness/tiespecs/c09.py): string tests of the source are fixed per item (typeThis == "imec", typ == "nidq"), '
+    'md.get(key, default) is an opaque integer whose name carries key and default, exceptions (KeyError of md["imMaxInt"] on NP2) are outside '
+    'the integer skeleton; `return list(range(ntr - nsync, ntr))` is read through the block outputs (ntr - nsync, ntr): that the returned range '
+    'uses exactly these bounds is covered by the correspondence (nsync, sync channels of sample2volts), not by the tie',
     'int(str) is modelled for ASCII text only, a list-valued niMNGain/niMAGain (NumPy broadcasting) is outside the model (Err.model; never generated)',
     'Reader.fs/nc/nsync/ns/type/version/sample2volts/range_volts are observed on a Reader whose meta and conversion table were set from '
     'read_meta_data/_conversion_sample2v_from_meta without running geometry_from_meta (C08), and through the real constructor on the fixtures',
@@ -781,15 +797,25 @@ def gen_grammar_text(rng, mode):
 _GAINS = [50, 125, 250, 500, 1000, 1500, 2000, 3000]
 
 
-def gen_acq(rng, small=False, mutate=False):
-    """Acquisition metadata for one probe type / stream / gain table / saved-channel count.  Returns (text, tags)."""
-    probe = ['3A', '3B1', '3B2', 'NP2.1', 'NP2.4', 'NPultra', 'nidq', 'unknown'][int(rng.integers(0, 8))]
+_PROBES = ['3A', '3B1', '3B2', 'NP2.1', 'NP2.4', 'NPultra', 'nidq', 'unknown']
+
+
+def gen_acq(rng, small=False, mutate=False, probe=None, nosync=False):
+    """Acquisition metadata for one probe type / stream / gain table / saved-channel count.  Returns (text, tags).
+    `probe` fixes the probe generation; `nosync` forces a header WITHOUT sync word (imec: snsApLfSy = n,0,0 / 0,n,0; nidq: no
+    digital word, snsMnMaXaDw = mn,ma,xa,0) with at least one saved channel."""
+    k0 = int(rng.integers(0, 8))
+    probe = probe or _PROBES[k0]
     f = {}
     tags = ['probe=' + probe]
     if probe == 'nidq':
         mn, ma, xa, dw = (int(x) for x in rng.integers(0, 4 if small else 9, 4))
         if rng.integers(0, 4) == 0:
             mn = ma = 0
+        if nosync:
+            dw = 0
+            xa = xa if rng.integers(0, 2) else 0
+            mn = max(mn, 1)
         f['typeThis'] = 'nidq'
         f['snsMnMaXaDw'] = f'{mn},{ma},{xa},{dw}'
         f['nSavedChans'] = str(mn + ma + xa + dw)
@@ -817,6 +843,10 @@ def gen_acq(rng, small=False, mutate=False):
             nchn, sub = nent + 1, 'beyond_table'
         else:
             nchn, sub = 0, 'sync_only'
+        if nosync:
+            nsy = 0
+            if k >= 4:
+                nchn, sub = nent, 'full'
         tags += [f'saved={sub}', f'nsync={nsy}', 'imro=' + ('384' if nent == 384 else '<=8' if nent <= 8 else '9..96')]
         f['typeThis'] = 'imec'
         f['nSavedChans'] = str(nchn + nsy)
@@ -1048,6 +1078,17 @@ def correspondence(ctx):
             if i % 6 == 1:
                 purity_case(text, ('purity', 'purity:acq', 'purity:' + ('conv-ok' if conv_ok else 'conv-err')))
 
+        # (b') headers WITHOUT sync word, every probe generation x AP / LF (x full / prefix) and nidq without digital word, every run:
+        # the gain vector is then the per-channel gains and nothing else (theorem gain_assembly with nsy = 0)
+        for probe in _PROBES:
+            for j in range(ctx.n(6, 40)):
+                text, tags = gen_acq(rng, small=(j % 3 == 0), probe=probe, nosync=True)
+                r = impl_derive(sc, text)
+                conv_ok = ' conv=ok:' in r
+                add('derive', text, r, conv_ok, ['derive', 'no-sync-word'] + tags + ['conv=' + ('ok' if conv_ok else 'err')])
+                if j % 3 == 1:
+                    purity_case(text, ('purity', 'purity:no-sync-word'))
+
         # (d) shipped fixtures, also through the genuine Reader constructor
         fx = fixture_texts()
         for name, text in fx:
@@ -1089,6 +1130,28 @@ def correspondence(ctx):
                  f'{sum(1 for q in pure if q[2])} with a wrong result; argument dict modified in {len(am)} (informational'
                  + (f', first: {am[0]}' if am else '') + ')')
     _assert_constants(ctx)
+    _assert_singleton(ctx)
+
+
+def _assert_singleton(ctx):
+    """theorems singleton_list_counterexample / parse_never_singleton_list next to the real code: a one-element list is written as a
+    bare integer and read back as a scalar.  INFORMATIONAL only (tag, note): the class is outside the property's quantifier
+    (read_meta_data never returns a one-element list), so a rewrite that treats it differently must not raise an alarm."""
+    with Scratch() as sc:
+        seen = []
+        for x in (5.0, 0.0, 384.0):
+            try:
+                w = real_write(sc, {'a': [x]})
+                back = real_read(sc, w)['a']
+                same = (w == f'a={int(x)}\n' and type(back) is float and back == x)
+            except Exception as e:  # noqa
+                same = False
+                w = 'err ' + type(e).__name__
+            seen.append(same)
+            ctx.case({'op': 'singleton-list', 'value': [x], 'written': w}, False,
+                     ('singleton-list', 'singleton-list:' + ('unnested-as-in-the-model(info)' if same else 'other(info)')))
+        ctx.note(f'one-element list values (outside the property): written as a bare integer and re-read as a scalar in {sum(seen)}/3 cases '
+                 '(model: singleton_list_counterexample)')
 
 
 def _assert_constants(ctx):
@@ -1486,16 +1549,25 @@ def known_findings(ctx):
     return {'scientific_repr_scalar': scientific_repr_scalar}
 
 
-LEVEL_TEXT = ('Lean 4 theorems on an executable transcription of read_meta_data / write_meta_data / the _get_* helpers: '
+LEVEL_TEXT = ('Lean 4 theorems on an executable transcription of read_meta_data / write_meta_data / the _get_* helpers '
+              '(for _get_neuropixel_version / _get_type / _get_max_int / _get_sync_trace_indices / _get_fs / _get_nchannels_from_meta and the '
+              'array-building steps of _conversion_sample2v_from_meta the transcription is ALSO regenerated from the source text on every run '
+              'and proved equal to the hand model — Tie/C09.lean, 14 theorems, incl. conversion = interpretation of the source\'s steps): '
               'parse(print(parse t)) = parse t for EVERY text whose numeric scalars are integer-valued or have a positional repr and whose '
               'lists are integer-valued (doubles modelled exactly as multiples of 2^-1074, float() = correct rounding, repr = shortest '
               'read-back string), the 0.00005 counterexample, total decision tables for version / type / counts / max-int, and the gain vector '
               'shape and source (AP = 4th, LF = 5th IMRO field of channel i, length = saved channels, sync = 1) for every IMRO table rendered '
-              'from rows, every saved-channel count; NP2 and nidq layouts; tied to the code by an exact differential run (dicts, written text, '
+              'from rows, every saved-channel count; the ASSEMBLY entry by entry (gain_assembly / gain_vector_entries / gain_vector_np2_entries: entry '
+              'i < n - nsync is the i-th channel gain, the last nsync entries are 1, length = saved channels, for every nsync >= 0 incl. 0; '
+              'reset_tail_counterexample: the `v[-nsync:] = 1` spelling is wrong exactly at nsync = 0); no parsed value is a one-element list; '
+              'NP2 and nidq layouts; tied to the code by an exact differential run (dicts, written text, '
               'gains as IEEE bit patterns)')
-LEVEL_NOTE = ('partial: the arithmetic inside the gains (float32/float64 products) is executed, not proved (compared bit for bit); that the '
+LEVEL_NOTE = ('translator tie: decisions / indices / step order of the helpers above hold of the source text itself (per-item assumptions on the '
+              'string tests; exceptions and the final range(...) expression outside the skeleton).  partial: the arithmetic inside the gains (float32/float64 products) is executed, not proved (compared bit for bit); that the '
               'model float()/repr() equal CPython is checked numerically on thousands of tokens/doubles per run, not proved; '
               'trusted: Lean kernel, harness, IEEE hardware floats')
-TECHNIQUE = ('Lean 4 proofs by structural induction on character lists / dictionaries (parser-printer round trip, regex scanner on rendered IMRO '
+TECHNIQUE = ('translator tie (pyfn2lean: decision tables, index arithmetic and the ordered array-building steps of the conversion regenerated '
+             'from src/spikeglx.py each run, theorems `translated source = hand model` by unfold + simp/omega, parameters addressed by name so a '
+             'changed metadata key breaks elaboration); Lean 4 proofs by structural induction on character lists / dictionaries (parser-printer round trip, regex scanner on rendered IMRO '
              'tables), exact integer softfloat (Nat.log2 bounds, omega), decide +kernel on the counterexample; exact correspondence run '
              '(dictionaries, written bytes, gains as IEEE bit patterns)')
